@@ -88,7 +88,7 @@ H("c07_witness_reachable", "budget", ["C07"], expect_s=30, functions=["budget::B
 UTF8_IN = "input = every valid-UTF-8 byte string of exactly N bytes (all 2^(8N) byte vectors filtered by the reference validator)"
 H("c17_sanitize_4", "snippet", ["C17", "C01"], expect_s=30, functions=["de_snipped::sanitize_terminal_snippet_preserve_len", "de_snipped::is_terminal_snippet_clean"],
   claim="sanitised text has the same byte length, contains no C0 (except \\n,\\t), DEL or C1 control, is valid UTF-8, leaves harmless bytes untouched; the crate's cleanliness predicate equals the reference predicate",
-  bound=UTF8_IN + ", N=4; unwind 7", assumes=[STD_STUBS])
+  bound=UTF8_IN + ", N=4; unwind 7", mem_gb=16, assumes=[STD_STUBS, "String::from_utf8_lossy is replaced by assert!(false): only reachable if the sanitiser broke UTF-8"])
 H("c17_sanitize_6", "snippet", ["C17"], tier="thorough", expect_s=120, functions=["de_snipped::sanitize_terminal_snippet_preserve_len", "de_snipped::is_terminal_snippet_clean"],
   claim="as c17_sanitize_4", bound=UTF8_IN + ", N=6; unwind 9", assumes=[STD_STUBS])
 H("c17_crop_line_4", "snippet", ["C17", "C01"], expect_s=60, functions=["de_snipped::crop_line_by_cols", "de_snipped::col_to_byte_offset_in_line"],
@@ -96,17 +96,20 @@ H("c17_crop_line_4", "snippet", ["C17", "C01"], expect_s=60, functions=["de_snip
   bound=UTF8_IN + " without \\n, N=4; error column and radius free 64-bit (radius>=1); left/right computed as the callers do", assumes=[STD_STUBS])
 H("c17_crop_line_6", "snippet", ["C17"], tier="thorough", expect_s=300, timeout=2400, functions=["de_snipped::crop_line_by_cols", "de_snipped::col_to_byte_offset_in_line"],
   claim="as c17_crop_line_4", bound=UTF8_IN + " without \\n, N=6", assumes=[STD_STUBS])
-H("c17_coords_4", "snippet", ["C17", "C16", "C01"], expect_s=60, functions=["de_snipped::line_starts", "de_snipped::line_col_to_byte_offset_with_starts", "de_snipped::next_char_boundary", "de_snipped::col_to_byte_offset_in_line"],
-  claim="(row, col) -> byte offset is on the requested line, on a char boundary, exactly col-1 characters after the line start; next_char_boundary advances by exactly one character; no slice panic for any row/col",
-  bound=UTF8_IN + ", N=4 (incl. \\n, \\r, multi-byte); row and col free 64-bit", assumes=[STD_STUBS])
-H("c17_crop_window_3", "snippet", ["C17", "C01"], expect_s=120, timeout=1200, functions=["de_snipped::crop_window_text", "de_snipped::crop_line_by_cols", "de_snipped::sanitize_terminal_snippet_preserve_len"],
-  claim="rendered window is terminal-clean, has the same number of lines, the rebased marker span is in range / ordered / on char boundaries / on the reported row and still under the same visible character",
-  bound=UTF8_IN + ", N=3; error row within the text, column and crop radius free 64-bit (0, 1, huge included); span computed as the callers do", assumes=[STD_STUBS])
-H("c17_crop_window_4", "snippet", ["C17"], tier="thorough", expect_s=600, timeout=3000, functions=["de_snipped::crop_window_text"],
-  claim="as c17_crop_window_3", bound=UTF8_IN + ", N=4", assumes=[STD_STUBS])
-H("c17_source_window_4", "snippet", ["C17", "C01"], expect_s=120, timeout=1200, functions=["de_snipped::crop_source_window", "de_snipped::line_starts"],
-  claim="stored window has at most 5 line breaks, is never longer than the text, contains the line the location refers to (start_line arithmetic for both mappings); no slice panic",
-  bound=UTF8_IN + ", N=4; line/column free u32, crop radius and start_line free 64-bit, both LineMappings (the >4 KiB storage-crop path is outside: unreachable with 4 bytes)", assumes=[STD_STUBS])
+COORD_F = ["de_snipped::line_starts", "de_snipped::line_col_to_byte_offset_with_starts", "de_snipped::next_char_boundary", "de_snipped::col_to_byte_offset_in_line"]
+COORD_C = "(row, col) -> byte offset is on the requested line, on a char boundary, exactly col-1 characters after the line start; next_char_boundary advances by exactly one character; no slice panic for any row/col"
+for _n, _N, _tier, _exp in (("c17_coords_2", 2, "quick", 120), ("c17_coords_3", 3, "thorough", 600), ("c17_coords_4", 4, "thorough", 2400)):
+    H(_n, "snippet", ["C17", "C16", "C01"], tier=_tier, expect_s=_exp, timeout=max(1200, 3 * _exp), mem_gb=20, weight=2, functions=COORD_F, claim=COORD_C,
+      bound=UTF8_IN + ", N=%d (incl. \\n, \\r, multi-byte); row and col free 64-bit" % _N, assumes=[STD_STUBS])
+WIN_C = "rendered window is terminal-clean, has the same number of lines, the rebased marker span is in range / ordered / on char boundaries / on the reported row and still under the same visible character"
+for _n, _N, _tier, _exp in (("c17_crop_window_2", 2, "thorough", 2400), ("c17_crop_window_3", 3, "thorough", 2400), ("c17_crop_window_4", 4, "thorough", 3600)):
+    H(_n, "snippet", ["C17", "C01"], tier=_tier, expect_s=_exp, timeout=max(1200, 2 * _exp), mem_gb=20, weight=2, functions=["de_snipped::crop_window_text", "de_snipped::crop_line_by_cols", "de_snipped::sanitize_terminal_snippet_preserve_len"],
+      claim=WIN_C, bound=UTF8_IN + ", N=%d; error row within the text, column and crop radius free 64-bit (0, 1, huge included); span computed as the callers do" % _N,
+      assumes=[STD_STUBS, "String::from_utf8_lossy is replaced by assert!(false): only reachable if the sanitiser broke UTF-8"])
+SRC_C = "stored window has at most 5 line breaks, is never longer than the text, contains the line the location refers to (start_line arithmetic for both mappings); no slice panic"
+for _n, _N, _tier, _exp in (("c17_source_window_2", 2, "thorough", 1200), ("c17_source_window_3", 3, "thorough", 1200), ("c17_source_window_4", 4, "thorough", 3600)):
+    H(_n, "snippet", ["C17", "C01"], tier=_tier, expect_s=_exp, timeout=max(1200, 2 * _exp), mem_gb=20, weight=2, functions=["de_snipped::crop_source_window", "de_snipped::line_starts"], claim=SRC_C,
+      bound=UTF8_IN + ", N=%d; line/column free u32, crop radius and start_line free 64-bit, both LineMappings (the >4 KiB storage-crop path is outside: unreachable with so few bytes)" % _N, assumes=[STD_STUBS])
 
 # --------------------------------------------------------------------------------------------
 # C06 / C01 scalar kernels (src/parse_scalars.rs)
@@ -213,13 +216,12 @@ for _n, _N, _tier, _exp in (("c12_wordlike_4", 4, "quick", 300), ("c12_wordlike_
       bound="all %d-byte tokens over ASCII letters and ~ . + -, key and block-value position, both yaml_12" % _N, assumes=[STD_STUBS, FMT_STUB, NUMLOOK, E2E])
 
 # --------------------------------------------------------------------------------------------
-# C02 / C08 / C10 / C11 event pump (src/live_events.rs): real parser over a concrete tiny text,
-# pump state havoc'ed before the step of interest
+# C12 quoted-style emitters (src/ser.rs)
 # --------------------------------------------------------------------------------------------
-PUMP_ENV = ["the saphyr parser runs over a concrete YAML text (concrete execution inside the symbolic executor); anchor_store::recursive_anchor_in_progress is stubbed to false (thread-local => Kani ICE; recursion wrappers are outside every claim)"]
-H("c02_alias_scalar_copy", "live_events", ["C02", "C08"], expect_s=300, timeout=1800, mem_gb=20, weight=2, functions=["live_events::LiveEvents::next_impl (Alias arm, inject loop)", "live_events::LiveEvents::record"],
-  claim="'- &a x / - *a': the alias delivers an event equal to the anchored scalar iff the three alias limits admit one more expansion; the replayed event is counted; otherwise an error - never a different value",
-  bound="concrete text; alias limits, total replayed events so far and per-anchor expansion count free 64-bit words", assumes=PUMP_ENV)
+for _n, _N, _tier, _exp in (("c12_write_quoted_1", 1, "quick", 200), ("c12_write_quoted_2", 2, "quick", 600), ("c12_write_quoted_3", 3, "thorough", 2400)):
+    H(_n, "ser", ["C12"], tier=_tier, expect_s=_exp, timeout=max(1500, 3 * _exp), mem_gb=20, weight=2, functions=["ser::YamlSerializer::write_quoted"],
+      claim="the double-quoted form of s, read by a reference reader of YAML double-quoted scalars (escape table \\\\ \\\" \\0 \\a \\b \\t \\n \\v \\f \\r \\e \\N \\L \\P \\xHH \\uHHHH; raw controls, line breaks and BOM not allowed), yields exactly s",
+      bound="every valid-UTF-8 string of exactly %d bytes" % _N, assumes=[STD_STUBS, E2E])
 
 PROP_NOTES = {
     "C07": "C07 is decided at the level of the budget automaton: one inductive step from an arbitrary state satisfying the "
@@ -232,6 +234,10 @@ def harnesses_for(prop, tier):
     out = []
     for h in HARNESSES:
         if prop in h["props"] and (h["tier"] == "quick" or tier == "thorough"):
+            # C01 (totality) is served by the panic/overflow/bounds/unwinding obligations of harnesses
+            # that primarily decide other properties; its quick tier takes the cheap ones only
+            if prop == "C01" and tier == "quick" and h["props"][0] != "C01" and h.get("expect_s", 60) > 130:
+                continue
             if tier == "quick" and h.get("quick_skip_for", None) and prop in h["quick_skip_for"]:
                 continue
             out.append(h)
